@@ -158,6 +158,15 @@ func genObjExpr(rt *rapid.T, depth int) *tw.Expr {
 			vals[i] = intLit(int64(i))
 		}
 	}
+	if rapid.IntRange(0, 2).Draw(rt, "repeatKeys") == 0 {
+		// some keys written more than once (the later value counts; several such keys in one literal)
+		for r := rapid.IntRange(1, 4).Draw(rt, "nRepeated"); r > 0; r-- {
+			i := rapid.IntRange(0, n-1).Draw(rt, "repeatedKey")
+			at := rapid.IntRange(0, len(keys)).Draw(rt, "repeatAt")
+			keys = append(keys[:at], append([]string{keys[i]}, keys[at:]...)...)
+			vals = append(vals[:at], append([]*tw.Expr{intLit(int64(100 + r))}, vals[at:]...)...)
+		}
+	}
 	return tw.Obj(keys, vals)
 }
 
